@@ -250,8 +250,11 @@ class RigidBody:
             self.artist_.set_data(body2origin, vertices=self.vertices_, tetrahedra=self.tetrahedra_)
 
     def aabb(self):
-        """The aabb of the rigidbody"""
-        return self.aabb_tree.get_root_aabb()
+        """The aabb of the rigidbody in the world frame."""
+        vertices_in_world = self.body2origin_[:3, 3] + np.dot(
+            self.vertices_, self.body2origin_[:3, :3].T)
+        return np.array([np.min(vertices_in_world, axis=0),
+                         np.max(vertices_in_world, axis=0)]).T
 
     @property
     def aabbs(self):
